@@ -1,6 +1,12 @@
 """C03: the declarative part of the result assembly -> Gen_C03.v (src_tables, src_shape).
 
-Read from the CURRENT source tree, fail closed on any shape that is not listed here:
+Read from the CURRENT source tree, fail closed on any shape that is not listed here.  Every function is first brought
+into a NORMAL FORM by translator/c03_norm.py (private helpers / methods inlined, a private `def f: return e` handed over as a
+function object -> lambda, guard clauses and early returns / continues -> if/else, `not` pushed inward, negated test with an
+else branch -> branches swapped, nested ifs merged, match on literals -> if/elif, single-assignment aliases of stable
+expressions and a boolean used by the very next `if` substituted, module-level constants resolved, f-strings flattened), and
+every branching block (key loops, the dtype restoration, the debug comparison) is RUN for all valuations of its conditions
+instead of being compared by shape -- so the shapes below stand for everything these normalisations map onto them:
 
 * pyxel/exposure/exposure.py `_extract_datatree_2d`: the tuple of keys, which of them the loop skips, that the
   variable `dataset[key]` is `getattr(detector, key).to_xarray()` (same key on both sides; an unrolled
